@@ -284,6 +284,8 @@ class MemSock(object):
             self._die(errno.ECONNRESET)
             return k
         if self.link.dirs[self.out].closed:
+            if self.link.peer_gone_errno is None:
+                return len(data)        # nobody listens: bytes are dropped
             raise socket.error(errno.EPIPE, "peer gone")
         if self.link.peer_gone_errno is not None and \
                 self.link.sock_closed["server" if self.side == "client"
